@@ -50,8 +50,44 @@ fn run_call(kind: usize, text: &str, shared: &Source, c: &Config) -> String {
     }
 }
 
+/// Scenario 4: many tiny calls in flight. Every thread formats only its own one-line document,
+/// over and over, so any cross-talk between concurrent calls (a result, a buffer or a reply
+/// handed to the wrong caller) shows at once, and the calls are cheap enough under Miri to make
+/// dozens of them per seed.
+fn many_tiny_calls() {
+    let nthreads = 3;
+    let docs: [&'static str; 3] = ["a  a\n", "= B\n", "#c( 3 )\n"];
+    let cfgs = [cfg(80, 2, false), cfg(20, 4, true), cfg(120, 2, false)];
+    let refs: Vec<String> = (0..nthreads).map(|t| Typstyle::new(cfgs[t].clone()).format_content(docs[t]).unwrap_or_else(|_| "<err>".into())).collect();
+    let refs = Arc::new(refs);
+    let mut hs = Vec::new();
+    for t in 0..nthreads {
+        let refs = refs.clone();
+        let c = cfgs[t].clone();
+        hs.push(std::thread::spawn(move || {
+            for round in 0..36 {
+                let got = if round % 3 == 2 {
+                    typstyle_core::format_with_width(docs[t], c.max_width)
+                } else {
+                    Typstyle::new(c.clone()).format_content(docs[t]).unwrap_or_else(|_| "<err>".into())
+                };
+                if round % 3 != 2 {
+                    assert_eq!(got, refs[t], "C17 violated under Miri: call of thread {} in round {} differs from its solo result", t, round);
+                }
+            }
+        }));
+    }
+    for h in hs {
+        h.join().expect("thread panicked");
+    }
+    println!("miri-lane scenario 4 ok");
+}
+
 fn main() {
     let args: Vec<String> = std::env::args().collect();
+    if args.get(1).map(|s| s == "4").unwrap_or(false) {
+        return many_tiny_calls();
+    }
     // `gen <doc0> <doc1> <width0> <width1>`: documents drawn by the harness from the seeded
     // generator (thorough tier); otherwise a built-in scenario by index
     let generated: Option<Vec<&'static str>> = if args.get(1).map(|s| s == "gen").unwrap_or(false) && args.len() >= 6 {
